@@ -155,7 +155,7 @@ Proof.
 Qed.
 Print Assumptions remap_sorted.
 
-(* direct_parse_key on a header pair "key":<blanks><value>: a string value may contain anything
+(* direct_parse_key on a pair "key":<blanks><value>: a string value may contain anything
    (commas, quotes, brackets, braces: the printer escapes them); null / true / numbers end at the
    next ',' or '}'.  Hypothesis: the text "key": does not occur earlier in the document. *)
 Theorem parse_key_ok : forall pre key w v post,
@@ -190,30 +190,56 @@ Proof.
 Qed.
 Print Assumptions subset_json_examples.
 
-(* ---- refuted: the array/object scanner of direct_parse_key (known finding F34).
-   A valid document whose first row id contains ']' : the "rows" pair returned runs on into
-   "columns" and is not JSON; subsetting observations raises ValueError, subsetting samples
-   writes a document that is not JSON.  One unpaired quote in an id does the same. *)
-Theorem parse_key_scanner_refuted :
-  exists doc, json_loads doc <> None /\
-    (exists kv, direct_parse_key doc K_ROWS = ROk kv /\ json_loads ([LBRACE] ++ kv ++ [RBRACE]) = None) /\
-    subset_json doc Obs [id_o2] = RErr E_VALUE /\
-    (exists out, subset_json doc Samp [id_s2] = ROk out /\ json_loads out = None).
-Proof.
-  exists doc_bracket. split; [exact (proj1 wit_bracket_valid)|].
-  split; [exists bracket_rows; exact wit_bracket_rows|]. split; [exact wit_bracket_obs|].
-  exists out_bracket_samp. exact wit_bracket_samp.
-Qed.
-Print Assumptions parse_key_scanner_refuted.
+(* direct_parse_key on "key":<blanks><array or object> (the repaired scanner, F34): the value is
+   returned exactly whenever the text between its outer brackets is made of plain characters,
+   JSON strings and nested bracket pairs (`bal`), a string body being ANY sequence of characters
+   other than quote / backslash and of two-character escapes (`str_body`): brackets, braces,
+   escaped quotes and backslashes inside ids and metadata strings are text. *)
+Theorem parse_key_value_ok : forall pre key sp o b cl post,
+  no_occ_before (key_pat key) (pre ++ (key_pat key ++ sp ++ o :: b ++ [cl]) ++ post) (length pre) ->
+  Forall (fun c => is_space c = true) sp -> is_open o = true -> is_close cl = true -> bal b ->
+  direct_parse_key (pre ++ (key_pat key ++ sp ++ o :: b ++ [cl]) ++ post) key
+    = ROk (key_pat key ++ sp ++ o :: b ++ [cl]).
+Proof. exact parse_key_value_ok_proof. Qed.
+Print Assumptions parse_key_value_ok.
 
-Theorem parse_key_scanner_quote_refuted :
-  exists doc, json_loads doc <> None /\ subset_json doc Obs [id_o2] = RErr E_VALUE.
-Proof. exists doc_quote. split; [exact (proj1 (proj2 wit_bracket_valid))|exact wit_quote_obs]. Qed.
-Print Assumptions parse_key_scanner_quote_refuted.
+(* every string the printers emit has such a body, whatever code points it holds ... *)
+Theorem json_escape_is_str_body : forall s, code_points s -> str_body (json_escape s).
+Proof. exact json_escape_body. Qed.
+Print Assumptions json_escape_is_str_body.
+
+(* ... hence for the "rows" / "columns" arrays (any array or object) as json.dumps prints them,
+   with ids, metadata keys and metadata strings of ARBITRARY content: *)
+Theorem parse_key_dumps_ok : forall pre key sp v post,
+  (exists l, v = JArr l) \/ (exists l, v = JObj l) -> jv_ok v ->
+  no_occ_before (key_pat key) (pre ++ (key_pat key ++ sp ++ dumps v) ++ post) (length pre) ->
+  Forall (fun c => is_space c = true) sp ->
+  direct_parse_key (pre ++ (key_pat key ++ sp ++ dumps v) ++ post) key = ROk (key_pat key ++ sp ++ dumps v).
+Proof. exact parse_key_dumps_ok_proof. Qed.
+Print Assumptions parse_key_dumps_ok.
+
+Example parse_key_dumps_nonvacuous :
+  jv_ok (JArr [JObj [(K_ID, JStr [111; 93; 34; 92; 123]%Z); (K_ROWS, JNull)]; JObj [(K_ID, JStr [91]%Z)]]).
+Proof. simpl. repeat split; repeat constructor; discriminate. Qed.
+
+(* the documents that witnessed F34 (a row id `o]1`, a row id with one quote, ids and metadata
+   with [ } { , quotes and backslashes, compact and indent=2): the model returns the implementation's
+   text, and that text is JSON *)
+Theorem subset_json_bracket_examples :
+  (subset_json doc_bracket Obs [id_o2; id_ob] = ROk out_bracket_obs /\ json_loads out_bracket_obs <> None) /\
+  (subset_json doc_bracket Samp [id_s2] = ROk out_bracket_samp /\ json_loads out_bracket_samp <> None) /\
+  (subset_json doc_quote Obs [id_oq] = ROk out_quote_obs /\ json_loads out_quote_obs <> None) /\
+  (subset_json doc_wild Obs [id_w3; id_w1] = ROk out_wild_obs /\ json_loads out_wild_obs <> None) /\
+  (subset_json doc_wild_indent Samp [id_ws2] = ROk out_wild_samp_indent /\ json_loads out_wild_samp_indent <> None).
+Proof.
+  split; [exact wit_bracket_obs|]. split; [exact wit_bracket_samp|]. split; [exact wit_quote_obs|].
+  split; [exact wit_wild_obs|exact wit_wild_samp_indent].
+Qed.
+Print Assumptions subset_json_bracket_examples.
 
 (* ---- refuted: key lookup by raw text search (known finding F35).  Observation metadata with a
    key named "columns": that occurrence is found first and `"columns": 1` is stitched in. *)
 Theorem parse_key_first_occurrence_refuted :
   exists doc, json_loads doc <> None /\ direct_parse_key doc K_COLUMNS = ROk columns_is_1.
-Proof. exists doc_mdkey. split; [exact (proj2 (proj2 wit_bracket_valid))|exact wit_mdkey]. Qed.
+Proof. exists doc_mdkey. split; [exact (proj2 (proj2 (proj2 wit_docs_valid)))|exact wit_mdkey]. Qed.
 Print Assumptions parse_key_first_occurrence_refuted.
